@@ -318,6 +318,7 @@ class CSSStyleSheet(cssutils.stylesheets.StyleSheet):
         # save for possible reset
         oldCssRules = self.cssRules
         oldNamespaces = self._namespaces
+        oldVariables = self._variables
 
         self.cssRules = cssutils.css.CSSRuleList()
         # simple during parse
@@ -353,7 +354,7 @@ class CSSStyleSheet(cssutils.stylesheets.StyleSheet):
             # e.g. an error raised in raising mode: reset
             self._cssRules = oldCssRules
             self._namespaces = oldNamespaces
-            self._updateVariables()
+            self._variables = oldVariables
             raise
 
         if wellformed:
@@ -369,7 +370,7 @@ class CSSStyleSheet(cssutils.stylesheets.StyleSheet):
             # reset
             self._cssRules = oldCssRules
             self._namespaces = oldNamespaces
-            self._updateVariables()
+            self._variables = oldVariables
             self._cleanNamespaces()
 
     cssText = property(
@@ -646,9 +647,16 @@ class CSSStyleSheet(cssutils.stylesheets.StyleSheet):
             # variables?
 
         elif isinstance(rule, cssutils.css.CSSRuleList):
-            # insert all rules
-            for i, r in enumerate(rule):
-                self.insertRule(r, index + i)
+            # insert all rules or none
+            done = []
+            try:
+                for i, r in enumerate(rule):
+                    self.insertRule(r, index + i)
+                    done.append(r)
+            except xml.dom.DOMException:
+                for r in done:
+                    self.deleteRule(r)
+                raise
             return index
 
         if not rule.wellformed:
